@@ -133,7 +133,9 @@ fn run_episode(ep: &Value, epno: usize, cache: &mut HashMap<String, Vocab>, tr: 
         let a1 = e1.is_accepting().unwrap_or(false);
         tr.ev(json!({"ev":"Acc","e":1,"v":a1 as u32}));
         // forced bytes / tokens of E1 against E0's byte-level masks
-        if v1.canonical || rng.chance(50, 100) {
+        // (recorded finding C11/forced-marker-bytes-then-mask: not where a non-canonical engine would be left holding the
+        //  marker form of a forced token-identity terminal)
+        if v1.canonical || (rng.chance(50, 100) && !e1.deep_clone().compute_ff_bytes().contains(&0xFF)) {
             let b = e1.compute_ff_bytes();
             tr.ev(json!({"ev":"FFBytes","e":1,"b":bytes_json(&b)}));
             if !b.is_empty() {
